@@ -424,6 +424,9 @@ def unary_minimal(t, name, a):
 
 MIXOPS = [('add', 'a + b'), ('mul', 'a * b'), ('sub', 'a - b'), ('div', 'a / b'), ('sel', 'one ? a : b'), ('sel2', 'zero ? a : b')]
 MIXRELS = [('lt', 'a < b'), ('ge', 'a >= b'), ('eq', 'a == b'), ('ne', 'a != b')]
+# compound assignment to a FLOATING object (6.5.16.2p3: `r op= b` is `r = r op b` with r evaluated once - the operation is done in
+# the common type of the two operands, and only its result is converted to the type of r): statement form, result read from r
+MIXASG = [('asg_add', 'r += b'), ('asg_sub', 'r -= b'), ('asg_mul', 'r *= b'), ('asg_div', 'r /= b')]
 
 
 def mixed_program(values, pairs):
@@ -445,6 +448,9 @@ def mixed_program(values, pairs):
             body.append(f'    {{ T_{ct} r = {ex}; int sz = sizeof({ex}); printf("%d ", sz); dump("{t1}.{t2}.{name}", i, j, &r, {nbytes(ct)}); }}')
         for name, ex in MIXRELS:
             body.append(f'    {{ int r = {ex}; int sz = sizeof({ex}); printf("%d ", sz); dump("{t1}.{t2}.{name}", i, j, &r, 4); }}')
+        if t1 in FMT:
+            for name, ex in MIXASG:
+                body.append(f'    {{ T_{t1} r = a; {ex}; int sz = sizeof r; printf("%d ", sz); dump("{t1}.{t2}.{name}", i, j, &r, {nbytes(t1)}); }}')
         body.append('  }\n}')
         out.append('\n'.join(body))
         calls.append(f'  mx_{t1}_{t2}();')
@@ -452,11 +458,25 @@ def mixed_program(values, pairs):
             for j in range(n2):
                 for name, _ in MIXOPS + MIXRELS:
                     cases[f'{t1}.{t2}.{name} {i} {j}'] = (t1, t2, name, i, j, ct)
+                if t1 in FMT:
+                    for name, _ in MIXASG:
+                        cases[f'{t1}.{t2}.{name} {i} {j}'] = (t1, t2, name, i, j, t1)
     out.append('int main(void) {\n' + '\n'.join(calls) + '\n  return 0;\n}')
     return '\n'.join(out) + '\n', cases
 
 
 def mixed_minimal(t1, t2, name, a, b, ct):
+    if name in dict(MIXASG):
+        ba = a if t1 in FMT else int_bits(t1, a)
+        bb = b if t2 in FMT else int_bits(t2, b)
+        return (f'#include <stdio.h>\n#include <string.h>\nint main(void) {{\n'
+                f'  unsigned char sa[16] = {{{",".join(map(str, to_bytes(16, ba)))}}};\n'
+                f'  unsigned char sb[16] = {{{",".join(map(str, to_bytes(16, bb)))}}};\n'
+                f'  {CNAME[t1]} ta; {CNAME[t2]} tb; memcpy(&ta, sa, sizeof ta); memcpy(&tb, sb, sizeof tb);\n'
+                f'  volatile {CNAME[t1]} a = ta; volatile {CNAME[t2]} b = tb;\n'
+                f'  {CNAME[t1]} r = a; {dict(MIXASG)[name]}; printf("%d ", (int)sizeof r);\n'
+                f'  unsigned char o[16]; memcpy(o, &r, sizeof r);\n'
+                f'  for (int i = 0; i < {nbytes(t1)}; i++) printf("%02x", o[i]);\n  printf("\\n");\n  return 0;\n}}\n')
     ex = dict(MIXOPS + MIXRELS)[name]
     ba = a if t1 in FMT else int_bits(t1, a)
     bb = b if t2 in FMT else int_bits(t2, b)
